@@ -64,7 +64,7 @@ fn main() {
             let n: usize = av[2].parse().unwrap();
             let w = wgen::families::build_leb_x(n, 0, 8, false, false);
             let a = decode(&w).unwrap();
-            let o = wdwarf::Opts { version: av[3].parse().unwrap(), one_sequence: false, file_index: 0, low_pc: wdwarf::LowPc::Body, range_form: wdwarf::RangeForm::Offset };
+            let o = wdwarf::Opts { version: av[3].parse().unwrap(), one_sequence: false, file_index: 0, low_pc: wdwarf::LowPc::Body, range_form: wdwarf::RangeForm::Offset, nested: false };
             let secs = wdwarf::synthesize(&a, o).unwrap();
             let mut input = w.clone();
             for (n, d) in &secs { wgen::families::append_custom(&mut input, n, d); }
